@@ -332,7 +332,48 @@ pub fn run(out: &mut Out, tier: &str, seed: u64, _scratch: &str) {
         out.case(&format!("c01 feat {} - {pyfile}", f.name), &real);
     }
     let _ = std::fs::remove_dir_all("/verif/.build/batch/c01f");
-    out.meta(&serde_json::json!({"programs": cases.len(), "feature_programs": feats.len(), "outcome_histogram": hist}));
+    // third stream: class chains, which body does a method call run (model: inheritedMethods / dispatch)
+    let n_chain = if tier == "thorough" { 60 } else { 12 };
+    let mut chain_reqs: Vec<String> = Vec::new();
+    let mut chain_cases: Vec<Case> = Vec::new();
+    for _ in 0..n_chain {
+        let depth = 1 + rng.below(3) as usize;
+        let names = ["a", "b", "c", "d"];
+        let mut levels: Vec<(String, Vec<&str>)> = Vec::new();
+        for li in 0..depth {
+            let ms: Vec<&str> = names.iter().copied().filter(|_| rng.chance(1, 2)).collect();
+            levels.push((format!("C{li}"), ms));
+        }
+        let mut src = String::new();
+        for (li, (cname, ms)) in levels.iter().enumerate() {
+            if li == 0 { src.push_str(&format!("class {cname}:\n")); } else { src.push_str(&format!("class {cname} extends C{}:\n", li - 1)); }
+            src.push_str(&format!("    f{li}: int\n"));
+            for m in ms { src.push_str(&format!("\n    def {m}(self) -> str:\n        return \"{cname}\"\n")); }
+            src.push('\n');
+        }
+        src.push_str("def main() -> None:\n");
+        for li in 0..depth {
+            let args = (0..=li).map(|k| format!("f{k}={k}")).collect::<Vec<_>>().join(", ");
+            src.push_str(&format!("    x{li} = C{li}({args})\n"));
+            for m in names {
+                if levels[..=li].iter().any(|(_, ms)| ms.contains(&m)) {
+                    src.push_str(&format!("    r{li}{m} = x{li}.{m}()\n    print(f\"{li}.{m}={{r{li}{m}}}\")\n"));
+                }
+            }
+        }
+        src.push_str("    print(\"end\")\n");
+        chain_reqs.push(format!("c01 dispatch {}", levels.iter().map(|(c, ms)| format!("{c}:{}", ms.join(","))).collect::<Vec<_>>().join(";")));
+        chain_cases.push(Case { name: String::new(), source: src });
+    }
+    let chain_outs = runner::run_batch("/verif/.build/batch/c01d", "/verif/.build/batch-target", &chain_cases);
+    for (req, o) in chain_reqs.iter().zip(chain_outs.iter()) {
+        // drop the trailing "end" marker line (keeps the output non-empty for classes without methods)
+        let real = canon(o);
+        let real = real.strip_suffix(",end").map(|x| x.to_string()).unwrap_or_else(|| if real == "done end" { "done -".to_string() } else { real });
+        out.case(req, &real);
+    }
+    let _ = std::fs::remove_dir_all("/verif/.build/batch/c01d");
+    out.meta(&serde_json::json!({"programs": cases.len(), "feature_programs": feats.len(), "class_chain_programs": chain_cases.len(), "outcome_histogram": hist}));
 }
 
 // =====================================================================================================================
@@ -376,6 +417,7 @@ pub fn c02_probes() -> Vec<(&'static str, String)> {
         ("nested-retype-of-outer-variable", p("    mut x = 1\n    if True:\n        x = \"s\"\n    print(1)\n")),
         ("append-while-iterating", p("    mut ys = [1, 2]\n    for v in ys:\n        if v > 5:\n            ys.append(v)\n    print(len(ys))\n")),
         ("derive-partialord-alone", "@derive(PartialOrd)\nmodel M:\n    a: int\n\ndef main() -> None:\n    m = M(a=1)\n    print(1)\n".to_string()),
+        ("default-parameter-omitted", "def f(a: int, b: int = 2) -> int:\n    return a + b\n\ndef main() -> None:\n    print(f(1))\n".to_string()),
         ("mutating-builtin-on-immutable-collection", p("    xs = [1]\n    xs.append(2)\n    print(len(xs))\n")),
         ("type-name-as-value-argument", "type Pos = newtype int\n\ndef show(p: Pos) -> None:\n    print(1)\n\ndef main() -> None:\n    f = Pos\n    show(f)\n".to_string()),
     ]
@@ -406,6 +448,10 @@ pub fn c02_negative() -> Vec<(&'static str, String)> {
         ("trait-parameter-gets-int", "trait Named:\n    def name(self) -> str: ...\n\nclass Dog with Named:\n    n: str\n\n    def name(self) -> str:\n        return self.n\n\ndef greet(who: Named, times: int) -> None:\n    print(who.name())\n\ndef main() -> None:\n    greet(5, 1)\n".to_string()),
         ("trait-parameter-gets-non-adopter", "trait Named:\n    def name(self) -> str: ...\n\nclass Dog with Named:\n    n: str\n\n    def name(self) -> str:\n        return self.n\n\nclass Cat:\n    n: str\n\ndef greet(who: Named, times: int) -> None:\n    print(who.name())\n\ndef main() -> None:\n    greet(Cat(n=\"c\"), 1)\n".to_string()),
         ("argument-after-trait-parameter-wrong", "trait Named:\n    def name(self) -> str: ...\n\nclass Dog with Named:\n    n: str\n\n    def name(self) -> str:\n        return self.n\n\ndef greet(who: Named, times: int) -> None:\n    print(who.name())\n\ndef main() -> None:\n    greet(Dog(n=\"d\"), \"three\")\n".to_string()),
+        ("call-with-too-few-arguments", p("def f() -> int:\n    return takes_int()\n")),
+        ("call-with-too-many-arguments", p("def f() -> int:\n    return takes_int(1, 2)\n")),
+        ("call-with-unknown-keyword", p("def f() -> int:\n    return takes_int(v=1, zz=2)\n")),
+        ("method-call-with-too-few-arguments", "class C:\n    n: int\n\n    def add(self, k: int) -> int:\n        return self.n + k\n\ndef main() -> None:\n    c = C(n=1)\n    print(c.add())\n".to_string()),
         ("mutating-method-on-immutable", "class C:\n    n: int\n\n    def bump(mut self) -> None:\n        self.n = self.n + 1\n\ndef main() -> None:\n    c = C(n=1)\n    c.bump()\n    print(c.n)\n".to_string()),
         // last: before the fix these overflowed the stack in lowering (the harness process dies with them)
         ("class-extends-itself", "class A extends A:\n    x: int\n\ndef main() -> None:\n    a = A(x=1)\n    print(a.x)\n".to_string()),
